@@ -2,6 +2,7 @@
 harness harness/conc (family "c10"), driver vlib/srvlib.py."""
 from . import srvlib
 from . import clilib
+from . import looplib
 
 TRUSTED = ["sync.Mutex critical sections are atomic and sequentially consistent (one model label per critical section)",
            "sync.WaitGroup, x/sync/semaphore.Weighted (FIFO, cancelled contexts fail), context cancellation, buffered channels: "
@@ -19,16 +20,22 @@ def run(ctx, res):
             fam = json.load(f).get("family", "c10")
         if str(fam).startswith("cli:"):
             return clilib.run_family(ctx, res, "cli:c10")
+        if str(fam).startswith("loop:"):
+            return looplib.run_family(ctx, res, "loop:c20")
         return srvlib.run_family(ctx, res, "c10")
     # the server's side of the channel ...
     srvlib.run_family(ctx, res, "c10")
     ev, dn, samples, extra = res.evaluations, res.distinct_nontrivial, list(res.samples or []), dict(res.extra)
     # ... and the client's side (family cli:c10 of the client harness, client model coq/cli/CliModel.v)
     clilib.run_family(ctx, res, "cli:c10", n_quick=2000, n_thorough=40000)
-    res.extra = dict(server_side=extra, client_side=dict(res.extra))
-    res.evaluations += ev
-    res.distinct_nontrivial += dn
-    res.samples = samples[:1] + list(res.samples or [])[:1]
+    ev2, dn2, samples2, extra2 = res.evaluations, res.distinct_nontrivial, list(res.samples or []), dict(res.extra)
+    # ... and the channels server.Loop hands to the servers it starts (each closed exactly once, whatever the
+    # server's exit status): the loop family with its channel-close accounting
+    looplib.run_family(ctx, res, "loop:c20", n_quick=800, n_thorough=20000)
+    res.extra = dict(server_side=extra, client_side=extra2, loop_side=dict(res.extra))
+    res.evaluations += ev + ev2
+    res.distinct_nontrivial += dn + dn2
+    res.samples = samples[:1] + samples2[:1] + list(res.samples or [])[:1]
     res.rule = ("scenario = seeded history of environment actions (records fed: single/batch, calls, notifications, each "
                 "single-defect invalid member, reply-shaped members, non-JSON; handler completions with results/errors; "
                 "CancelRequest, Stop, Notify/Callback, context ends, Recv errors, Send failures, restart) interleaved with "
